@@ -7,7 +7,7 @@ CONSTANTS
   AttachedInits <- c_AttachedInits
   UpdSets <- c_UpdSets
   DelSets <- c_DelSets
-  MaxLevel = 5
+  MaxLevel = 99
   Dev_EmptyUpdateCreatesRouter = FALSE
   Dev_DeleteDnetsDropsRouter = FALSE
   Dev_DeleteDnetsNoAddrFails = FALSE
